@@ -35,6 +35,7 @@ type FuncContract struct {
 	Stable      []Expr              // fields that opaque callees are assumed never to write (set once at construction)
 	StableSrc   []string
 	AllocUnbounded bool
+	Locals            map[string]int  // locals name=k: the contract's name for the k-th named local (by position) of the function, used when the code no longer has a local of that name
 	AssumeUnreachable map[string]bool // assume_unreachable f: calls to the no-return function f in this body are assumed unreachable (listed)
 	AssumePre      map[string]bool // assume_pre f, g: preconditions of these callees are assumed at their calls (reported as assumptions)
 	AllocBound     []Clause // alloc_bound <expr over $n>: what every make([]T, $n) of this function must satisfy (replaces the fixed bound)
@@ -112,7 +113,7 @@ func newContracts() *Contracts {
 	return &Contracts{Funcs: map[string]*FuncContract{}, SpecFuncs: map[string]*SpecFunc{}, Lemmas: map[string]*Lemma{}, Ghosts: map[string]*GhostVar{}, FuncFields: map[string]string{}, OpaqueTys: map[string]bool{}, NonConsensusMapLoops: map[string]string{}}
 }
 
-var directiveKW = []string{"func", "invoke", "spec", "pred", "lemma", "axiom", "ghost", "requires", "ensures", "modifies", "loop", "panics_never", "may_panic", "inline", "trusted", "uses", "noreturn", "pure", "fresh_result", "funcfield", "sink", "opaque", "maploop", "at", "opaque_calls", "panic_only_when", "stable", "own_panics_never", "alloc_unbounded", "alloc_bound", "assume_pre", "ghost_set", "assume_ensures", "safety_only", "assume_unreachable"}
+var directiveKW = []string{"func", "invoke", "spec", "pred", "lemma", "axiom", "ghost", "requires", "ensures", "modifies", "loop", "panics_never", "may_panic", "inline", "trusted", "uses", "noreturn", "pure", "fresh_result", "funcfield", "sink", "opaque", "maploop", "at", "opaque_calls", "panic_only_when", "stable", "own_panics_never", "alloc_unbounded", "alloc_bound", "assume_pre", "ghost_set", "assume_ensures", "safety_only", "assume_unreachable", "locals"}
 
 type directive struct {
 	kw    string
@@ -175,14 +176,21 @@ func readDirectives(path string) ([]directive, error) {
 	return out, nil
 }
 
-var funcHdrRe = regexp.MustCompile(`^(?:\(\s*(?:[A-Za-z_]\w*\s+)?(\*?)([\w./\-]+)\s*\)\s*)?([\w./$\-]+)\s*(?:\((.*)\))?$`)
+var funcHdrRe = regexp.MustCompile(`^(?:\(\s*(?:([A-Za-z_]\w*)\s+)?(\*?)([\w./\-]+)\s*\)\s*)?([\w./$\-]+)\s*(?:\((.*)\))?$`)
 
+// canonFuncKey parses a function header of a contract. params: the positional names of the header's parameter list;
+// when the header also names the receiver ("(cs *T) f(a, b)") the receiver's name comes first, so that the list is
+// positional over receiver + parameters and the contract keeps working when the code renames any of them.
 func canonFuncKey(hdr, pkgPath string) (key string, params []string, err error) {
 	m := funcHdrRe.FindStringSubmatch(strings.TrimSpace(hdr))
 	if m == nil {
 		return "", nil, fmt.Errorf("bad function header %q", hdr)
 	}
-	star, recv, name, plist := m[1], m[2], strings.TrimPrefix(m[3], "."), m[4]
+	recvName, star, recv, name, plist := m[1], m[2], m[3], strings.TrimPrefix(m[4], "."), m[5]
+	hasList := plist != "" || strings.HasSuffix(strings.TrimSpace(hdr), "()")
+	if recvName != "" && hasList {
+		params = append(params, recvName)
+	}
 	if plist != "" {
 		for _, p := range strings.Split(plist, ",") {
 			p = strings.TrimSpace(p)
@@ -450,6 +458,20 @@ func (c *Contracts) loadFile(path, pkgPath string, isLib bool) error {
 					return fail(err)
 				}
 				curF.AllocBound = append(curF.AllocBound, Clause{"", e, d.rest, d.where})
+			case "locals":
+				if curF.Locals == nil {
+					curF.Locals = map[string]int{}
+				}
+				for _, n := range strings.Split(d.rest, ",") {
+					kv := strings.SplitN(strings.TrimSpace(n), "=", 2)
+					if len(kv) == 2 {
+						k, err := strconv.Atoi(strings.TrimSpace(kv[1]))
+						if err != nil {
+							return fail(fmt.Errorf("locals: %v", err))
+						}
+						curF.Locals[strings.TrimSpace(kv[0])] = k
+					}
+				}
 			case "assume_unreachable":
 				if curF.AssumeUnreachable == nil {
 					curF.AssumeUnreachable = map[string]bool{}
